@@ -774,6 +774,25 @@ func (w *clientWorld) remove(cb *cbRec) {
 	w.sim.Logf("unsubscribe", "cb%d", cb.id)
 }
 
+// removeConcurrent calls cb's remover from a task that may run concurrently with
+// other callers of the same remover: the callback must never be invoked after ANY
+// call of its unsubscribe function has returned, so the earliest return counts.
+func (w *clientWorld) removeConcurrent(cb *cbRec) {
+	if cb.remover == nil {
+		return
+	}
+	inv := w.tick()
+	if cb.remInvoked == 0 || inv < cb.remInvoked {
+		cb.remInvoked = inv
+	}
+	cb.remover()
+	ret := w.tick()
+	if cb.remReturned == 0 || ret < cb.remReturned {
+		cb.remReturned = ret
+	}
+	w.sim.Logf("unsubscribe", "cb%d (hot)", cb.id)
+}
+
 func (w *clientWorld) newCB(typ string, all bool) *cbRec {
 	cb := &cbRec{id: len(w.cbs), typ: typ, all: all}
 	if all {
@@ -815,12 +834,23 @@ func (w *clientWorld) setupCallbacks() {
 			w.remove(cb)
 		}
 	}
+	// a callback registered before Connect that several tasks try to remove at about the same time
+	var hot *cbRec
+	if len(w.cbs) > 1 && ch.Chance(1, 2, "hot callback") {
+		hot = w.cbs[1+ch.Intn(len(w.cbs)-1, "which hot callback")]
+	}
+	hotAt := ch.Range(1, 4, "hot removal after events")
 	// concurrently with Connect
 	nTasks := ch.Range(0, 3, "subscriber tasks")
 	for t := 0; t < nTasks; t++ {
 		t := t
 		w.sim.Spawn(fmt.Sprintf("subscriber%d", t), func() {
 			var mine []*cbRec
+			if hot != nil && ch.Chance(2, 3, "this task removes the hot callback") {
+				w.sim.WaitWeak("waits to remove the hot callback", func() bool { return len(w.events) >= hotAt || w.connectReturned != 0 })
+				w.removeConcurrent(hot)
+				w.o.probe("hot callback removed by a subscriber task")
+			}
 			for i := 0; i < 5 && ch.Chance(3, 4, "more subscription ops"); i++ {
 				k := ch.Range(0, 12, "wait for events")
 				w.sim.WaitWeak("subscriber waits", func() bool { return len(w.events) >= k || w.connectReturned != 0 })
